@@ -394,13 +394,14 @@ class FilePersister : public Persister
 	int _fod, _iod;
 	unsigned _rotnum;
 	bool _wasCreated;
+	off_t _ctrl_pos; // offset of the control record in the index file, -1 if none yet
 
 	using Index = std::map<uint32_t, Prec>;
 	Index _index;
 
 public:
 	/// Ctor.
-	FilePersister(unsigned rotnum=0) : _fod(-1), _iod(-1), _rotnum(rotnum), _wasCreated() {}
+	FilePersister(unsigned rotnum=0) : _fod(-1), _iod(-1), _rotnum(rotnum), _wasCreated(), _ctrl_pos(-1) {}
 
 	/// Dtor.
 	F8API virtual ~FilePersister();
